@@ -206,8 +206,8 @@ PROPS = {
                 'replayed through the M-Eventer machine under every placement of the lock steps between call and return (trace acceptance), and through the C20 monitors; '
                 'stress family: every public method of Batcher / SharedResource / event API of both generations hammered from 12 goroutines in a binary built with the Go race detector (races, panics, watchdog); '
                 'non-trivial = an emit with a blocked listener, or a stress round',
-        'explanation': 'PARTIAL: listener-registry theorems (exactly once, nothing after RemoveListener returned, no write during an emit, progress) proved over M-Eventer; data-race / panic / deadlock freedom of the whole API is explored with the race detector, not proved',
-        'assumptions': ['Go memory model, sync.RWMutex and the race detector are trusted', 'synchronous re-entry from inside a listener is excluded by the property and not modelled',
+        'explanation': 'PARTIAL: listener-registry theorems (exactly once, nothing after RemoveListener returned, no write during an emit, progress) proved over M-Eventer; lock discipline of every shared field proved over the regenerated access table (ExpectLocks); panic / deadlock freedom of the whole API is explored with the race detector and watchdogs, not proved',
+        'assumptions': ['Go memory model, sync.RWMutex and the race detector are trusted', 'lockset discipline => no data race is the classical argument (trusted); the extractor reads Lock()/defer Unlock() lexically; a function literal is assumed to run on another goroutine with no locks held', 'synchronous re-entry from inside a listener is excluded by the property and not modelled',
                         'the stress family is exploration (sampling of schedules), it supports but does not prove the first sentence of C20'],
     },
     'C14': {
